@@ -98,6 +98,8 @@ def oracle(seed, tier):
                 if w["features"]:
                     nontriv += 1
                 out = r.stdout.strip().split()
+                if out[:1] == ["err"] and "AssertThrow" in r.stdout and nthreads == ([2, 8, 32] if tier != "thorough" else [2, 3, 8, 16, 32])[0]:
+                    break               # the generator produced a world the library refuses to construct (nothing to query)
                 races = r.stderr.count("WARNING: ThreadSanitizer: data race")
                 if r.returncode != 0 or out[:1] != ["ok"] or out[2] != "0" or races:
                     viol.append({"what": "concurrent queries (%d threads, %s build): %s; %d data-race reports" % (nthreads, variant, r.stdout.strip()[:200] or ("exit %d" % r.returncode), races),
